@@ -17,13 +17,14 @@ import json, os, subprocess, sys
 V = os.path.dirname(os.path.dirname(os.path.abspath(__file__)))
 TREE, SCRATCH = sys.argv[1], sys.argv[2]
 sys.path.insert(0, V)
-from translate import qlayer, oplayer, mconv, cstack, effects, alloc, rates, fraction      # noqa: E402
+from translate import qlayer, oplayer, mconv, cstack, effects, alloc, rates, fraction, termops      # noqa: E402
 
 TR = {
     'QuantityImpl': (qlayer, 'src/quantity/__init__.py', 'Proofs/GenQuantityEq.vo'),
     'AllocImpl': (alloc, 'src/quantity/__init__.py', 'Proofs/GenAllocEq.vo'),
     'RatesImpl': (rates, 'src/quantity/money/__init__.py', 'Proofs/GenRatesEq.vo'),
     'FractionImpl': (fraction, 'src/quantity/money/__init__.py', 'Proofs/GenFractionEq.vo'),
+    'TermOpsImpl': (termops, 'src/quantity/term.py', 'Proofs/GenTermOpsEq.vo'),
     'OpsImpl': (oplayer, 'src/quantity/__init__.py', 'Proofs/GenOpsEq.vo'),
     'MoneyConvImpl': (mconv, 'src/quantity/money/__init__.py', 'Proofs/GenMoneyConvEq.vo'),
     'ConvStackImpl': (cstack, 'src/quantity/__init__.py', 'Proofs/GenConvStackEq.vo'),
